@@ -129,11 +129,18 @@ def target(rng, pool, need_node=False, int_ok=True):
     r = rng.random()
     if need_node:
         return {'$node': rng.choice(nodes)} if nodes else None
+    if int_ok and rng.random() < 0.12:
+        return literal_target(rng)
     if r < 0.25 or not nodes:
         return None if rng.random() < 0.6 else {'$server': True}
     if r < 0.9 or not int_ok:
         return {'$node': rng.choice(nodes)}
     return {'$int': rng.choice(nodes)}
+
+
+def literal_target(rng):
+    """Plain int target naming a well-known node: 0 root, 1 default group."""
+    return {'$lit': rng.choice([0, 0, 1])}
 
 
 def completion(rng, pool, fn_ok=True, index=False):
@@ -183,9 +190,12 @@ def gen_op(rng, pool, in_bind, stats, multi_client, nrt=True):
                 op['target'] = {'$server': True}
             op['action'] = rng.choice(ACTIONS)
         else:
-            if not nodes:
+            if ctor != 'replace' and int_ok and rng.random() < 0.15:
+                op['target'] = literal_target(rng)
+            elif not nodes:
                 return gen_op(rng, pool, in_bind, stats, multi_client, nrt)
-            op['target'] = target(rng, pool, need_node=True)
+            else:
+                op['target'] = target(rng, pool, need_node=True)
             if ctor == 'replace':
                 op['same_id'] = rng.random() < 0.4
         if ctor != 'grain':
@@ -213,9 +223,12 @@ def gen_op(rng, pool, in_bind, stats, multi_client, nrt=True):
                 op['target'] = {'$server': True}
             op['action'] = rng.choice(ACTIONS)
         else:
-            if not nodes:
+            if ctor != 'replace' and int_ok and rng.random() < 0.15:
+                op['target'] = literal_target(rng)
+            elif not nodes:
                 return gen_op(rng, pool, in_bind, stats, multi_client, nrt)
-            op['target'] = target(rng, pool, need_node=True)
+            else:
+                op['target'] = target(rng, pool, need_node=True)
         h = pool.new('n')
         op['out'] = h
         pool.nodes[h] = {'kind': 'group' if cls == 'Group' else 'pargroup',
@@ -233,7 +246,10 @@ def gen_op(rng, pool, in_bind, stats, multi_client, nrt=True):
         h = pool.new('n')
         cls = rng.choice(['Synth', 'Group', 'ParGroup'])
         pool.nodes[h] = {'kind': cls.lower(), 'state': 'basic'}
-        return {'op': 'basic_new', 'cls': cls, 'def': 'default', 'out': h}
+        op = {'op': 'basic_new', 'cls': cls, 'def': 'default', 'out': h}
+        if rng.random() < 0.4:
+            op['node_id'] = rng.choice([0, 0, 1])     # explicit well-known id
+        return op
 
     if kind == 'node':
         h = rng.choice(nodes)
@@ -580,7 +596,7 @@ def gen_program(rng, multi_client=False, nrt=True):
             n = rng.randint(0, 8)
             fail = rng.random() < 0.4
             pool.created_in_block = []
-            snapshot_len = len(prog)
+            nodes_before = set(pool.live_nodes())
             ops = []
             raise_at = None
             propagate = False
@@ -597,7 +613,24 @@ def gen_program(rng, multi_client=False, nrt=True):
                                 'values': [1.0]})
                     propagate = True
                     raise_at = None
-            item = {'bind': ops, 'raise_at': raise_at, 'propagate': propagate}
+            exit_fault = None
+            if not fail and rng.random() < 0.15:
+                # the send at block exit fails: an argument the OSC encoder
+                # rejects, or (RT) a fault of the socket stand-in
+                exit_fault = 'unencodable' if nrt or rng.random() < 0.5 else 'socket'
+                if exit_fault == 'unencodable':
+                    live = [h for h in pool.live_nodes() if h in nodes_before]
+                    if live and rng.random() < 0.6:
+                        poison = {'op': 'node', 'm': 'set', 'h': rng.choice(live),
+                                  'args': ['seed', 2 ** 40]}
+                    else:
+                        poison = {'op': 'server', 'm': 'send_msg',
+                                  'msg': ['/dumpOSC', 2 ** 40]}
+                    ops.insert(rng.randint(0, len(ops)), poison)
+                fail = True          # nothing of this block reaches the server
+                stats['exit_fault_blocks'] = stats.get('exit_fault_blocks', 0) + 1
+            item = {'bind': ops, 'raise_at': raise_at, 'propagate': propagate,
+                    'exit_fault': exit_fault}
             if fail:
                 for h in pool.created_in_block:
                     for tbl in (pool.nodes, pool.bufs, pool.buses):
